@@ -1,6 +1,6 @@
 (* The case interpreter of the correspondence check: one text line in, one canonical text line out.
    The Rust harness (`impldrv`) implements the same protocol on top of the real library. No proofs here. *)
-Require Import SD.Base SD.Text SD.Codes.
+Require Import SD.Base SD.Text SD.Codes SD.Header.
 From Coq Require Import String.
 Open Scope N_scope.
 
@@ -69,11 +69,77 @@ Definition run_match (args : list (list byte)) : list byte :=
   | _ => s2b "BADCASE"
   end.
 
+(* ---- header cases (C08) ---- *)
+Definition flags7 (h : header) : list byte := List.concat (map (fun f => bool_tok (has_flags h f)) all_flags).
+Definition hdr_tok (h : header) : list byte :=
+  unwords [N_to_hex (h_id h); N_to_hex (opcode_disc (h_opcode h)); N_to_hex (rcode_disc (h_rcode h)); flags7 h].
+Definition res_tok {A} (o : outcome A) (f : A -> list byte) : list byte :=
+  match o with Ok a => f a | Err _ => s2b "E" | Panic _ => s2b "PANIC" | OutOfFuel => s2b "HANG" end.
+
+(* HDR id w qd an ns ar: parse + re-serialise of the header with zero counts, and the eight peeks on the header as given *)
+Definition run_hdr (args : list (list byte)) : list byte :=
+  match map hex_to_N args with
+  | [Some id; Some w; Some qd; Some an; Some ns; Some ar] =>
+    let d0 := be_enc 2 id ++ be_enc 2 w ++ be_enc 2 0 ++ be_enc 2 0 ++ be_enc 2 0 ++ be_enc 2 0 in
+    let d := be_enc 2 id ++ be_enc 2 w ++ be_enc 2 qd ++ be_enc 2 an ++ be_enc 2 ns ++ be_enc 2 ar in
+    let p := match parse_header d0 with
+             | Ok h => s2b "OK " ++ hdr_tok h ++ sp ++ bytes_to_hex (write_header h 0 0 0 0)
+             | Err e => err_line e | Panic s => s2b "PANIC" | OutOfFuel => s2b "HANG" end in
+    unwords [p; s2b "|"; res_tok (peek_id d) N_to_hex; res_tok (peek_questions d) N_to_hex;
+             res_tok (peek_answers d) N_to_hex; res_tok (peek_name_servers d) N_to_hex;
+             res_tok (peek_additional_records d) N_to_hex;
+             List.concat (map (fun f => res_tok (peek_has_flags d f) bool_tok) all_flags);
+             res_tok (peek_rcode d) (fun r => N_to_hex (rcode_disc r));
+             res_tok (peek_opcode d) (fun o => N_to_hex (opcode_disc o))]
+  | _ => s2b "BADCASE"
+  end.
+
+(* PEEK <hex buffer>: the eight peeks on an arbitrary (possibly short) buffer *)
+Definition run_peek (args : list (list byte)) : list byte :=
+  match map hex_to_bytes args with
+  | [Some d] =>
+    unwords [res_tok (peek_id d) N_to_hex; res_tok (peek_questions d) N_to_hex;
+             res_tok (peek_answers d) N_to_hex; res_tok (peek_name_servers d) N_to_hex;
+             res_tok (peek_additional_records d) N_to_hex;
+             List.concat (map (fun f => res_tok (peek_has_flags d f) bool_tok) all_flags);
+             res_tok (peek_rcode d) (fun r => N_to_hex (rcode_disc r));
+             res_tok (peek_opcode d) (fun o => N_to_hex (opcode_disc o))]
+  | _ => s2b "BADCASE"
+  end.
+
+(* FLAGS a b: set / remove / has on PacketFlag::from_bits_truncate of the two words *)
+Definition run_flags (args : list (list byte)) : list byte :=
+  match map hex_to_N args with
+  | [Some a; Some b] =>
+    let fa := from_bits_truncate a in let fb := from_bits_truncate b in
+    let h := set_flags (new_query 0) fa in
+    unwords [flags7 h; flags7 (set_flags h fb); flags7 (remove_flags h fb); bool_tok (has_flags h fb);
+             N_to_hex (get_flags (set_flags h fb)); N_to_hex (get_flags (remove_flags h fb))]
+  | _ => s2b "BADCASE"
+  end.
+
+(* BUILDHDR id opcode rcode flags: header bytes of a packet built through the public setters, and their parse *)
+Definition run_buildhdr (args : list (list byte)) : list byte :=
+  match map hex_to_N args with
+  | [Some id; Some op; Some rc; Some fl] =>
+    let h := {| h_id := id; h_opcode := opcode_of_code op; h_rcode := rcode_of_code rc; h_flags := from_bits_truncate fl |} in
+    let d := write_header h 0 0 0 0 in
+    unwords [bytes_to_hex d;
+             match parse_header d with
+             | Ok h' => s2b "OK " ++ hdr_tok h'
+             | Err e => err_line e | Panic s => s2b "PANIC" | OutOfFuel => s2b "HANG" end]
+  | _ => s2b "BADCASE"
+  end.
+
 Definition run_line (line : list byte) : list byte :=
   match tokens line with
   | [] => []
   | cmd :: args =>
     if tok_eqb cmd "CODE" then run_codes args
     else if tok_eqb cmd "MATCH" then run_match args
+    else if tok_eqb cmd "HDR" then run_hdr args
+    else if tok_eqb cmd "PEEK" then run_peek args
+    else if tok_eqb cmd "FLAGS" then run_flags args
+    else if tok_eqb cmd "BUILDHDR" then run_buildhdr args
     else s2b "BADCASE"
   end.
